@@ -105,6 +105,9 @@ func Minimise(t *testing.T, bind *Binding, c *Case, job *Job, same func([]model.
 			}
 		}
 	}
+	if _, isTwin := best.Extra["twin"]; isTwin {
+		return best // the twin relation needs both programs unchanged
+	}
 	// 4. drop instances, processors, rules; simplify attributes
 	for i := 0; i < len(best.Prog.Instances); {
 		cand := cloneCase(best)
